@@ -21,6 +21,9 @@ def main(argv):
     t0 = time.time()
     out = driver.Outcome(a.pid)
     driver.run_verus_units(a.pid, spec.get('verus', []), out, tier)
+    if out.undecided_units:
+        from . import racrun
+        racrun.fallback_for_undecided_units(a.pid, out.undecided_units, out)
     harnesses = spec.get('kani_quick', []) if tier == 'quick' else spec.get('kani_thorough', spec.get('kani_quick', []))
     if harnesses:
         from . import kanirun
